@@ -8,7 +8,7 @@
    channels that got it - with multiplicity and at exactly those positions - are the ones Bus!Fanout
    gives.  At the end the ids the file channel must hold are printed for comparison with its file.     *)
 EXTENDS Integers, Sequences, FiniteSets, TLC, Json, HoneytrapUniverse
-VARIABLES FilterCfg, conns, sent, panicked, delivered, l
+VARIABLES FilterCfg, conns, sent, panicked, beat, delivered, l
 Trace == ndJsonDeserialize("trace.ndjson")
 H == INSTANCE Honeytrap WITH Channels <- Chans, Entries <- SvcTable, CatOf <- Cats, Token <- Trace[1].token
 
@@ -26,10 +26,15 @@ Fatal == /\ Is("fatal")
          /\ LET ev == sent'[Len(sent')] IN
             /\ ev.src = Trace[l].src /\ Trace[l].token = Trace[1].token
             /\ \A ch \in {"a", "b", "all"} : Positions(delivered'[ch], ev.id) = { Trace[l].pos[ch][i] : i \in 1..Len(Trace[l].pos[ch]) }
-End == /\ Is("end") /\ PrintT(<<"FILE", delivered["f"]>>) /\ UNCHANGED <<FilterCfg, conns, sent, panicked, delivered>>
-Next == Accept \/ Event \/ Fatal \/ End
-Spec == Init /\ [][Next]_<<FilterCfg, conns, sent, panicked, delivered, l>>
+Beat == /\ Is("heartbeat")
+        /\ H!Heartbeat
+        /\ LET ev == sent'[Len(sent')] IN
+           /\ ev.seq = Trace[l].seq /\ Trace[l].token = Trace[1].token
+           /\ \A ch \in {"a", "b", "all"} : Positions(delivered'[ch], ev.id) = { Trace[l].pos[ch][i] : i \in 1..Len(Trace[l].pos[ch]) }
+End == /\ Is("end") /\ PrintT(<<"FILE", delivered["f"]>>) /\ UNCHANGED <<FilterCfg, conns, sent, panicked, beat, delivered>>
+Next == Accept \/ Event \/ Fatal \/ Beat \/ End
+Spec == Init /\ [][Next]_<<FilterCfg, conns, sent, panicked, beat, delivered, l>>
 HighWater == TLCSet(1, IF TLCGet(1) < l THEN l ELSE TLCGet(1))
 Accepted == TLCGet(1) = Len(Trace) + 1 \/ (PrintT(<<"REJECTED_AT", TLCGet(1)>>) /\ FALSE)
-Inv == H!Attributed /\ H!SilentIfUnrouted /\ H!ExactlyAdmitted /\ H!OneFatalPerPanic
+Inv == H!Attributed /\ H!SilentIfUnrouted /\ H!ExactlyAdmitted /\ H!OneFatalPerPanic /\ H!HeartbeatsNumbered
 =============================================================================
